@@ -285,6 +285,10 @@ def dtype_of(spec, default='real'):
         return 'int'
     if spec is bool:
         return 'bool'
+    if getattr(spec, '__name__', None) in ('float64', 'complex128', 'int64', 'int32'):
+        return {'float64': 'real', 'complex128': 'complex', 'int64': 'int', 'int32': 'int'}[spec.__name__]
+    if getattr(spec, '__name__', None) in ('float32', 'complex64', 'float16'):
+        raise AnalysisError(f'single precision ({spec.__name__}) has no model: the domain does not track precision')
     if getattr(spec, '__name__', None) in ('_int', '_float'):    # the interpreter's shadowed builtins int / float
         return 'int' if spec.__name__ == '_int' else 'real'
     raise AnalysisError(f'dtype {spec!r} has no model')
@@ -441,17 +445,19 @@ class Arr:
             t['mx'] = _mx.T(m_)
         return self.view([self.shape[p] for p in perm], [self.legs[p] for p in perm], t, origin='transpose')
 
-    def reshape(self, *shape, **kw):
+    def reshape(self, *shape, order='C', **kw):
+        if kw:
+            raise AnalysisError(f'reshape with keyword arguments {sorted(kw)} has no model')
         if len(shape) == 1 and isinstance(shape[0], (list, tuple)):
             shape = tuple(shape[0])
-        return reshape(self, shape)
+        return reshape_ordered(self, shape, order)
 
-    def flatten(self):
-        r = reshape(self, (self.size,))
+    def flatten(self, order='C'):
+        r = reshape_ordered(self, (self.size,), order)
         return Arr(r.shape, r.legs, r.dt, None, r.tags, 'flatten', parents=(self,))
 
-    def ravel(self):
-        return reshape(self, (self.size,))
+    def ravel(self, order='C'):
+        return reshape_ordered(self, (self.size,), order)
 
     def squeeze(self, axis=None):
         keep = [i for i, s in enumerate(self.shape) if not is_one(s)]
@@ -689,6 +695,20 @@ def merge_parts(grp):
 
 
 # ------------------------------------------------------------------------------------------------ reshape
+def reshape_ordered(a, shape, order='C'):
+    """reshape with NumPy's order argument: 'C' is the model below; 'F' is the C-order reshape of the transposed array, transposed back; 'A' / 'K' follow the memory
+    layout the array happens to have, which neither the domain nor the tensor-train class controls"""
+    if order in ('C', None):
+        return reshape(a, shape)
+    if order == 'F':
+        return reshape(a.transpose(), tuple(reversed(list(shape)))).transpose()
+    if order in ('A', 'K'):
+        CTX.event('layout-dependent', array=a, detail=f"reshape / flatten with order='{order}' follows the memory layout of the array: a core that happens to be stored column-major (a transposed "
+                  f"view, data loaded in Fortran order) is unfolded in a different index order than a row-major one")
+        return reshape(a, shape)
+    raise value_error(f"order must be one of 'C', 'F', 'A', or 'K' (got {order!r})")
+
+
 def reshape(a, shape):
     shape = list(shape)
     total = a.size
@@ -897,6 +917,25 @@ class SymOff:
 class SymRange:
     def __init__(self, lo, hi):
         self.lo, self.hi = lo, hi
+
+    def __len__(self):
+        n = simp(Size.of(self.hi, CTX.atoms) - self.lo)
+        if isinstance(n, int):
+            return n
+        raise AnalysisError('len() of a range of symbolic length where a concrete integer is needed')
+
+    def __getitem__(self, k):
+        # range(lo, hi)[k] = lo + k for 0 <= k < hi - lo (negative k counts from the end)
+        if isinstance(k, (int, Size)) and not isinstance(k, bool):
+            n = simp(Size.of(self.hi, CTX.atoms) - self.lo)
+            i = norm_index(n, k)
+            ok = index_in_range(n, i)
+            if ok is False:
+                raise Raised('IndexError', 'range object index out of range')
+            if ok is None:
+                raise AnalysisError(f'range(...)[{k}]: the index is not provably inside the range of symbolic length {n}')
+            return simp(Size.of(self.lo, CTX.atoms) + i)
+        raise AnalysisError(f'range(...)[{type(k).__name__}] has no model')
 
 
 def norm_index(n, i):
@@ -1320,7 +1359,51 @@ def setitem(a, idx, v):
     a.tags.pop('const', None) if a.tags.get('const') not in ('zeros',) else None
     a.tags.setdefault('stores', []).append(rec)
     a.tags.pop('orth', None)
+    # a store through a view is a store into the array the view was taken from: recorded there in its coordinates (or, if the selections do not compose, the root's
+    # store log is marked incomplete so that no rule reads a definite content from it)
+    so = a.tags.get('sel_of')
+    hops = 0
+    cur_sel = tuple(sel)
+    while so is not None and so[0].buf is a.buf and hops < 4:
+        root, rsel = so
+        comp = compose_sel(rsel, cur_sel)
+        if comp is None:
+            root.tags['stores_incomplete'] = True
+            break
+        root.tags.setdefault('stores', []).append(dict(rec, sel=comp))
+        root.tags.pop('const', None) if root.tags.get('const') not in ('zeros',) else None
+        cur_sel, so, hops = comp, root.tags.get('sel_of'), hops + 1
     CTX.event('store', target=a, sel=tuple(sel), value=v)
+
+
+def compose_sel(outer, inner):
+    """selection in the coordinates of the array a view was taken from: outer = selection that made the view, inner = selection applied to the view"""
+    out, it = [], iter(inner)
+    for s_ in outer:
+        if s_[0] == 'int':
+            out.append(s_)
+            continue
+        if s_[0] == 'new':
+            nxt = next(it, None)
+            if nxt is None or nxt[0] not in ('all', 'int'):
+                return None
+            continue
+        nxt = next(it, None)
+        if nxt is None:
+            return None
+        if s_[0] == 'all':
+            out.append(nxt)
+        elif s_[0] == 'range' and nxt[0] == 'all':
+            out.append(s_)
+        elif s_[0] == 'range' and nxt[0] == 'int' and isinstance(nxt[1], (int, Size, SymIdx, SymOff)):
+            out.append(('int', nxt[1] + s_[1] if not isinstance(nxt[1], (SymIdx, SymOff)) else nxt[1] + s_[1]))
+        elif s_[0] == 'range' and nxt[0] == 'range':
+            out.append(('range', simp(Size.of(s_[1], CTX.atoms) + nxt[1]), simp(Size.of(s_[1], CTX.atoms) + nxt[2])))
+        else:
+            return None
+    if next(it, None) is not None:
+        return None
+    return tuple(out)
 
 
 def adopt_legs(a, idx, sel, v):
